@@ -59,7 +59,7 @@ class Narrower:
                 return True, frozenset([ch.target])
             return True, None
         if ci.definer(attr) is not None or hasattr(list, attr):
-            return True, None
+            return True, self.prop_type(ci, attr, depth)
         if depth > 0:
             for c in spec.values():
                 if c.kind == "SubAggregate" and isinstance(c.target, ClassInfo):
@@ -67,6 +67,70 @@ class Narrower:
                     if ok:
                         return True, t
         return False, None
+
+    def prop_type(self, ci: ClassInfo, attr: str, depth=3) -> Types:
+        """model type of a plain alias property (`return self.<child>.<child>` on every returning path), else None"""
+        d = ci.definer(attr)
+        if d is None or depth <= 0:
+            return None
+        kind, fn = d.attrs.get(attr, (None, None))
+        if kind != "func" or not is_property(fn):
+            return None
+        out: Set[ClassInfo] = set()
+        rets = [r for r in own_nodes(fn) if isinstance(r, ast.Return)]
+        if not rets:
+            return None
+        for r in rets:
+            cur = frozenset([ci])
+            e = r.value
+            chain = []
+            while isinstance(e, ast.Attribute):
+                chain.append(e.attr)
+                e = e.value
+            if not (isinstance(e, ast.Name) and e.id == "self") or not chain:
+                return None
+            for a in reversed(chain):
+                nxt: Set[ClassInfo] = set()
+                for t in cur:
+                    ok, ct = self.child_type(t, a, depth - 1)
+                    if not ok or ct is None:
+                        return None
+                    nxt |= ct
+                cur = frozenset(nxt)
+            out |= cur
+        return frozenset(out) if out else None
+
+    def may_raise(self, t: ClassInfo, attr: str) -> Optional[str]:
+        """why reading .attr on an instance of t can raise AttributeError although t defines it: a property that
+        goes through an optional child without testing it, or a name only reachable through the __getattr__ proxy"""
+        spec = self.s.spec(t)
+        if attr in spec:
+            return None
+        d = t.definer(attr)
+        if d is None:
+            return None if hasattr(list, attr) else f"{t.name} has no '{attr}' of its own (it is proxied from a sub-aggregate, and raises when that one is absent)"
+        kind, fn = d.attrs.get(attr, (None, None))
+        if kind != "func" or not is_property(fn):
+            return None
+        for x in ast.walk(fn):
+            if isinstance(x, ast.Attribute) and isinstance(x.value, ast.Attribute) and isinstance(x.value.value, ast.Name) and x.value.value.id == "self":
+                ch = spec.get(x.value.attr)
+                if ch is not None and ch.kind == "SubAggregate" and not ch.required:
+                    guarded = False
+                    par = parent(x)
+                    while par is not None and par is not fn:
+                        if isinstance(par, (ast.If, ast.IfExp)) and f"self.{x.value.attr}" in text(par.test):
+                            guarded = True
+                        if isinstance(par, ast.Try):
+                            guarded = True
+                        par = parent(par)
+                    # `assert self.<c> is not None` earlier in the getter states the presence the read relies on
+                    for a_ in ast.walk(fn):
+                        if isinstance(a_, ast.Assert) and f"self.{x.value.attr}" in text(a_.test) and a_.lineno <= x.lineno:
+                            guarded = True
+                    if not guarded:
+                        return f"{t.name}.{attr} returns {text(x)} and <{x.value.attr.upper()}> is optional"
+        return None
 
     def resolve_class(self, node) -> Optional[List[ClassInfo]]:
         if isinstance(node, ast.Tuple):
@@ -155,11 +219,32 @@ class Narrower:
                                f"reads .{attr} on a value that can be a {t.name}, which defines no '{attr}' (not a child, not a class attribute, not proxied from a sub-aggregate): AttributeError, or a silently missing result", self.where(node))
             elif ok:
                 self.rep.check(self.rule, f"{self.label}:{text(base_expr)}.{attr}@{t.name}", True, "", self.where(node))
+                if not has_default and is_property(self.fn):
+                    self.swallowed_miss(t, attr, base_expr, node)
             if ct is None:
                 known = False
             else:
                 out |= ct
         return frozenset(out) if known and out else None
+
+    def swallowed_miss(self, t: ClassInfo, attr: str, base_expr, node):
+        """an AttributeError raised INSIDE a property getter is swallowed by Python, which then asks __getattr__ for
+        the property's own name; when a sub-aggregate can answer that name, the caller silently gets that answer"""
+        why = self.may_raise(t, attr)
+        if why is None:
+            return
+        par = parent(node)
+        while par is not None and par is not self.fn:
+            if isinstance(par, ast.Try) and any(h.type is None or any(isinstance(x, ast.Name) and x.id in ("AttributeError", "Exception", "BaseException") for x in ast.walk(h.type)) for h in par.handlers) and any(node is x for b in par.body for x in ast.walk(b)):
+                return
+            if isinstance(par, (ast.If, ast.IfExp)) and text(base_expr) in text(par.test) and ("fi" in text(par.test) or attr in text(par.test)):
+                return
+            par = parent(par)
+        answer = [c.name for c in self.s.spec(self.recv).values() if c.kind == "SubAggregate" and isinstance(c.target, ClassInfo) and self.s.attr_defined_on(c.target, self.fn.name)]
+        if not answer:
+            return
+        self.rep.check("A-R10", f"{self.label}:{text(base_expr)}.{attr}@{t.name}:miss-not-swallowed", False,
+                       f"the getter reads {text(base_expr)}.{attr}, which raises AttributeError on a valid instance ({why}); raised inside a property, that error makes Python fall back to {self.recv.name}.__getattr__('{self.fn.name}'), and the sub-aggregate <{answer[0].upper()}> answers '{self.fn.name}' itself - the caller silently gets that child's (partial) result instead of the full one", self.where(node))
 
     # -- statements ------------------------------------------------------------
     def narrow_test(self, test, env) -> Tuple[Dict[str, Types], Dict[str, Types]]:
@@ -476,6 +561,7 @@ ALIAS_TABLE = {
 def a_r2_r3_properties(schema: Schema, rep: Report):
     rep.rule("A-R2", "typed narrowing in every shortcut property: each attribute read on a value of known model type is defined on that type (child, class attribute, or proxied from a non-repeated descendant); every isinstance arm can match (its class is a list member type of the receiver and no earlier arm took it); request-side and response-side `statements` of one message set cover corresponding wrapper types")
     rep.rule("A-R3", "plain aliases (`return self.<child>`): the child is declared; response wrappers' `statement`/`profile` return the wrapper's only own sub-aggregate; account/transactions/balance(s)/positions return the child of the kind the property's wording names; org/fid/cursym/currate return the like-named attribute")
+    rep.rule("A-R10", "no shortcut getter can have a miss swallowed: an AttributeError raised inside a @property makes Python ask __getattr__ for the property's own name; where a sub-aggregate of the receiver can answer that name, the getter contains no unguarded read that raises on a valid instance (a property that goes through an optional child, or a name only reachable through the proxy) - otherwise the caller silently receives that child's answer")
     nprops = 0
     tested_by: Dict[str, Dict[str, List[ClassInfo]]] = {}
     for cname, ci in schema.exported().items():
